@@ -1,6 +1,11 @@
 (* Properties/C13.v — power method (tree after repair 5612f82).
-   Statements only; every proof is `exact` of a lemma of Proofs/Power.v. *)
-From Coq Require Import ZArith NArith List Reals Lia.
+   Statements only; every proof is `exact` of a lemma of Proofs/Power.v.
+   Vocabulary (Proofs/Power.v): [shaped h w a] = a is an h x w array whose buffer
+   has h*w entries; [rect h w rows] = h rows of length w; [rsum n f] = sum_{k<n} f k;
+   [rayleigh n A v] = v^T (A v) / v^T v; [pm_state A k] (Model/Power.v) = the pair
+   (eigenvalue, eigenvector) after k executions of the loop body, k = 0 being
+   the state before the loop whose eigenvalue is the first scaling component. *)
+From Coq Require Import ZArith NArith List Reals Floats Lia Lra.
 From SV Require Import Base.Num Base.Outcome Base.Mat Model.Power Proofs.Power.
 Import ListNotations.
 
@@ -9,10 +14,10 @@ Import ListNotations.
    the products are n x 1 resp. 1 x 1 and non-empty —; a budget of
    MAX_ITERATIONS loop-body executions always suffices (more fuel never changes
    the answer, which is therefore never `Panic WFuel`), and an Ok answer left
-   the loop with iterations < MAX_ITERATIONS; a square n x n input (n >= 1)
-   gives Ok with an n x 1 vector or Err NoConvergence; rectangular non-square
-   or empty input gives Err NonSquareMatrix; ragged rows give
-   Err InconsistentRowLengths (from try_into). *)
+   the loop with iterations < MAX_ITERATIONS, i.e. after at most MAX_ITERATIONS
+   body executions; a square n x n input (n >= 1) gives Ok with an n x 1 vector
+   or Err NoConvergence; rectangular non-square or empty input gives
+   Err NonSquareMatrix; ragged rows give Err InconsistentRowLengths (try_into). *)
 Theorem c13_total : forall (T : Type) (NT : Num T) (rows : list (list T)) (es : T),
   no_panic (power_method rows es) /\
   (forall fuel, (N.to_nat MAX_ITERATIONS <= fuel)%nat ->
@@ -37,3 +42,117 @@ Check c13_total : forall (T : Type) (NT : Num T) (rows : list (list T)) (es : T)
   (forall h w, rect h w rows -> h <> w \/ h = 0%nat -> power_method rows es = Err ENonSquareMatrix) /\
   ((forall h w, ~ rect h w rows) -> power_method rows es = Err EInconsistentRowLengths).
 Print Assumptions c13_total.
+
+Local Open Scope R_scope.
+
+(* Shape, normalisation and Rayleigh quotient (exact arithmetic).  On Ok (lam, v):
+   the input is n x n, n >= 1; v is the n x 1 vector produced by the last loop
+   body from the iterate x: with w = A x (the un-normalised iterate, w_i = sum_t
+   A_it x_t) and s = scaling_component w — an entry of w: its maximum if that is
+   positive, otherwise (no positive entry) its minimum — v_i = w_i / s.  Every
+   component of v is <= 1, and some component equals 1 provided s <> 0, which is
+   the case exactly when w is not the zero vector (max w > 0, or max w <= 0 and
+   min w < 0).  [In R, x / 0 = 0: for w = 0 the model returns the zero vector.]
+   lam is the Rayleigh quotient of v.  NOTE the largest SIGNED component is 1,
+   not the largest-magnitude one (DESIGN's wording): the repaired code and its
+   test expect [1, -1.414, 1]. *)
+Theorem c13_shape_norm : forall (rows : list (list R)) (es lam : R) (v : arr R),
+  power_method rows es = Ok (lam, v) ->
+  exists (n : nat) (A x : arr R) (prev ea : R),
+    (1 <= n)%nat /\ rect n n rows /\ try_from rows = Ok A /\ ah A = n /\ aw A = n /\
+    (forall i j, (i < n)%nat -> (j < n)%nat -> aget A i j = nth j (nth i rows []) 0) /\
+    shaped n 1 x /\ pm_step A prev x = Ok (lam, v, ea) /\
+    let w := amul A x in
+    shaped n 1 w /\ shaped n 1 v /\
+    (forall i, (i < n)%nat -> aget w i 0 = rsum n (fun t => aget A i t * aget x t 0)) /\
+    (exists s, scaling_component w = Ok s /\
+       (exists i, (i < n)%nat /\ s = aget w i 0) /\
+       ((0 < s /\ forall i, (i < n)%nat -> aget w i 0 <= s) \/
+        (s <= 0 /\ forall i, (i < n)%nat -> s <= aget w i 0 <= 0)) /\
+       forall i, (i < n)%nat -> aget v i 0 = aget w i 0 / s) /\
+    (forall i, (i < n)%nat -> aget v i 0 <= 1) /\
+    ((exists i, (i < n)%nat /\ aget w i 0 <> 0) -> exists i, (i < n)%nat /\ aget v i 0 = 1) /\
+    lam = rayleigh n A v.
+Proof. exact Proofs.Power.c13_shape_norm_R. Qed.
+Check c13_shape_norm : forall (rows : list (list R)) (es lam : R) (v : arr R),
+  power_method rows es = Ok (lam, v) ->
+  exists (n : nat) (A x : arr R) (prev ea : R),
+    (1 <= n)%nat /\ rect n n rows /\ try_from rows = Ok A /\ ah A = n /\ aw A = n /\
+    (forall i j, (i < n)%nat -> (j < n)%nat -> aget A i j = nth j (nth i rows []) 0) /\
+    shaped n 1 x /\ pm_step A prev x = Ok (lam, v, ea) /\
+    let w := amul A x in
+    shaped n 1 w /\ shaped n 1 v /\
+    (forall i, (i < n)%nat -> aget w i 0 = rsum n (fun t => aget A i t * aget x t 0)) /\
+    (exists s, scaling_component w = Ok s /\
+       (exists i, (i < n)%nat /\ s = aget w i 0) /\
+       ((0 < s /\ forall i, (i < n)%nat -> aget w i 0 <= s) \/
+        (s <= 0 /\ forall i, (i < n)%nat -> s <= aget w i 0 <= 0)) /\
+       forall i, (i < n)%nat -> aget v i 0 = aget w i 0 / s) /\
+    (forall i, (i < n)%nat -> aget v i 0 <= 1) /\
+    ((exists i, (i < n)%nat /\ aget w i 0 <> 0) -> exists i, (i < n)%nat /\ aget v i 0 = 1) /\
+    lam = rayleigh n A v.
+Print Assumptions c13_shape_norm.
+
+(* The only way to an Ok answer is the relative-change test: lam is the Rayleigh
+   quotient computed by loop body number k+1 (k < MAX_ITERATIONS), prev the
+   eigenvalue estimate of the state before it (for k = 0 the first scaling
+   component, for k > 0 the previous Rayleigh quotient), and
+   |lam - prev| < es |lam|.  The side condition lam <> 0 is needed in R only
+   (x / 0 = 0 makes ea = 0 there; with floats ea is NaN or inf and the test fails). *)
+Theorem c13_exit_means_small_change : forall (rows : list (list R)) (es lam : R) (v : arr R),
+  power_method rows es = Ok (lam, v) ->
+  exists (A : arr R) (k : nat) (prev : R) (x : arr R) (ea : R),
+    try_from rows = Ok A /\ (N.of_nat k < MAX_ITERATIONS)%N /\
+    (exists s0 x0, pm_state A 0 = Ok (s0, x0) /\
+                   scaling_component (amul A (afull 1 (ah A) 1)) = Ok s0) /\
+    pm_state A k = Ok (prev, x) /\
+    pm_step A prev x = Ok (lam, v, ea) /\
+    ea = Rabs ((lam - prev) / lam) /\ ea < es /\
+    (lam <> 0 -> Rabs (lam - prev) < es * Rabs lam).
+Proof. exact Proofs.Power.c13_exit_R. Qed.
+Check c13_exit_means_small_change : forall (rows : list (list R)) (es lam : R) (v : arr R),
+  power_method rows es = Ok (lam, v) ->
+  exists (A : arr R) (k : nat) (prev : R) (x : arr R) (ea : R),
+    try_from rows = Ok A /\ (N.of_nat k < MAX_ITERATIONS)%N /\
+    (exists s0 x0, pm_state A 0 = Ok (s0, x0) /\
+                   scaling_component (amul A (afull 1 (ah A) 1)) = Ok s0) /\
+    pm_state A k = Ok (prev, x) /\
+    pm_step A prev x = Ok (lam, v, ea) /\
+    ea = Rabs ((lam - prev) / lam) /\ ea < es /\
+    (lam <> 0 -> Rabs (lam - prev) < es * Rabs lam).
+Print Assumptions c13_exit_means_small_change.
+
+(* PARTIAL.  Full statement (NOT proved; decided by the oracle of tools/props/c13.py only):
+     for every symmetric A = Q D Q^T of size n >= 1, D = diag(l1, .., ln) with |li| <= |l1| / 2
+     for i >= 2, l1 <> 0 of either sign, <1, q1> <> 0, and every tolerance 0 < tol:
+     power_method A tol = Ok (lam, v)  with  ||A v - lam v|| <= C sqrt(tol) |lam| ||v||  and
+     |lam - l1| <= C tol |l1|   (C = 8).
+   Missing: the spectral theorem and the convergence analysis of the iteration.  Moreover the
+   statement is FALSE as it stands for the code (finding F13e, known_findings.d/C13.json): the
+   exit test compares the first Rayleigh quotient with the first scaling component, and two
+   successive estimates can agree to within tol by coincidence long before convergence.
+   Proved here: the case n = 1, where the answer is exact. *)
+Theorem c13_accuracy_partial : forall a es : R, a <> 0 -> 0 < es ->
+  power_method [[a]] es = Ok (a, mk_arr 1 1 [1]).
+Proof. exact Proofs.Power.c13_accuracy_1x1_R. Qed.
+Check c13_accuracy_partial : forall a es : R, a <> 0 -> 0 < es ->
+  power_method [[a]] es = Ok (a, mk_arr 1 1 [1]).
+Print Assumptions c13_accuracy_partial.
+
+(* non-vacuity: the hypothesis `power_method rows es = Ok (lam, v)` of the two R theorems is met *)
+Example c13_nonvacuous_R : exists lam v, power_method [[2]] (1 / 2) = Ok (lam, v).
+Proof. eexists _, _. apply Proofs.Power.c13_accuracy_1x1_R; lra. Qed.
+
+(* the model computes: float instance on a 2 x 2 symmetric matrix, the error branches,
+   and a run to the iteration cap (zero matrix: 0/0 = NaN forever) *)
+Example c13_float_ok :
+  is_ok (power_method (T := float) [[2; 1]; [1; 2]]%float 0x1p-30%float) = true.
+Proof. vm_compute. reflexivity. Qed.
+Example c13_nonsquare : power_method (T := Z) [[1; 2]]%Z 1%Z = Err ENonSquareMatrix.
+Proof. reflexivity. Qed.
+Example c13_empty : power_method (T := Z) [] 1%Z = Err ENonSquareMatrix.
+Proof. reflexivity. Qed.
+Example c13_ragged : power_method (T := Z) [[1; 2]; [3]]%Z 1%Z = Err EInconsistentRowLengths.
+Proof. reflexivity. Qed.
+Example c13_cap : power_method (T := float) [[0]]%float 0x1p-30%float = Err ENoConvergence.
+Proof. vm_compute. reflexivity. Qed.
